@@ -162,11 +162,11 @@ PROPS['C06'] = {
     'level': 'proof',
     'functions': ['anstream::strip::{write,write_all,write_fmt,offset_to}', 'impl Write for StripStream (write, write_vectored, flush, write_all, write_fmt)', 'anstream::fmt::Adapter (thorough)'],
     'quick': {'verus': ['strip_scan', 'strip_fold'], 'kani': [
-        {'crate': 'anstream', 'harnesses': C06_QUICK, 'timeout': 1500, 'flags': ['-Z', 'stubbing'], 'mem_gb': 12}, C06_FMT]},
+        {'crate': 'anstream', 'harnesses': C06_QUICK + C06_FMT['harnesses'], 'timeout': 1500, 'flags': ['-Z', 'stubbing', '-Z', 'restrict-vtable'], 'mem_gb': 12, 'io_error_unwind': 2, 'tag': 'rv'}]},
     'thorough': {'verus': ['strip_scan', 'strip_fold'], 'kani': [
-        {'crate': 'anstream', 'harnesses': C06_QUICK, 'timeout': 3000, 'flags': ['-Z', 'stubbing'], 'mem_gb': 12}, C06_FMT]},
+        {'crate': 'anstream', 'harnesses': C06_QUICK + C06_FMT['harnesses'], 'timeout': 3000, 'flags': ['-Z', 'stubbing', '-Z', 'restrict-vtable'], 'mem_gb': 12, 'io_error_unwind': 2, 'tag': 'rv'}]},
     'assumptions': ['modular: next_bytes is replaced by a recording stand-in returning an arbitrary answer of the shape its verified contract guarantees (verus:strip_scan::next_bytes); buffers up to 4 bytes (write never inspects byte values)',
-                    'fmt::Adapter / write_fmt: CBMC does not finish on core::fmt::write (measured > 50 min); its error-saving logic is covered only by reading: listed as unverified',
+                    'fmt::Adapter / write_fmt are verified against an UNINTERPRETED formatter: core::fmt::write is replaced (Kani stub) by a stand-in with the shape of its documented contract (the text arrives as write_str calls in order — two fixed fragments —, the first write_str error stops it and is returned; a second stand-in models a formatting trait failing on its own). What core::fmt::write renders for given arguments is std: assumed',
                     'the inner writer honours the Write contract (returns n <= buf.len())'],
     'explanation': 'Kani verifies write/write_all against the scanner contract for every carried state, every scanner answer and every inner-writer outcome (accept any prefix, fail with Interrupted/WouldBlock/Other): exactly one inner write per call, the reported count ends at the last accepted visible byte, the state is replayed over exactly the consumed prefix from the entry state, errors surface with their kind and leave state and delivery untouched. Verus (strip_scan + strip_fold) supplies what the routed pieces and states mean.',
 }
@@ -211,8 +211,8 @@ PROPS['C08'] = {
         {'crate': 'anstream', 'harnesses': ['auto_new_never', 'auto_new_ansi_always', 'auto_new_always', 'auto_pass_one_write', 'auto_pass_all_write', 'auto_pass_vectored_write', 'auto_pass_flushes', 'auto_routed_one_write', 'auto_routed_all_write', 'auto_routed_vectored_write', 'auto_routed_flushes'], 'timeout': 1500, 'flags': ['-Z', 'stubbing', '-Z', 'restrict-vtable'], 'mem_gb': 12, 'io_error_unwind': 2, 'tag': 'rv'}]},
     'rule': 'one case = one harness over all colour choices / all four Write methods / symbolic buffers of <= 3 bytes; non-trivial = verified',
     'bounded': {**{h: 'one call of one method on a symbolic 2-byte buffer (every call is stateless in pass-through mode)' for h in ['auto_pass_one_write', 'auto_pass_all_write', 'auto_pass_vectored_write', 'auto_pass_flushes']},
-                **{h: 'one call of one method on a 2-byte buffer; that the call is routed through StripStream with the right buffer is what is checked, StripStream itself is C06' for h in ['auto_routed_one_write', 'auto_routed_all_write', 'auto_routed_vectored_write', 'auto_routed_flushes']}},
-    'assumptions': ['write_fmt (both arms) and to_adapted_string are not covered: CBMC does not finish on core::fmt::write',
+                **{h: 'one call of one method on a 2-byte buffer, scanner replaced by its recording stand-in, counting writer; that the call reaches the stripper with the right buffer under one lock is what is checked, StripStream itself is C06' for h in ['auto_routed_one_write', 'auto_routed_all_write', 'auto_routed_vectored_write', 'auto_routed_flushes']}},
+    'assumptions': ['write_fmt (both arms) is covered only for its lock discipline (C19) and, for the strip arm, its plumbing (C06); to_adapted_string is not covered',
                     'the Never arm is verified to route through StripStream (C06 verifies that stream); the Windows console arm is outside the claim',
                     'inner writers other than the in-crate mock (Vec<u8>, Box<dyn Write>, File) are assumed to behave alike (the code is generic in S)'],
     'explanation': 'Constructor dispatch for all choices, the reported mode, byte-identical forwarding in pass-through mode and routing of the Never mode through the strip stream, all through one lock acquisition per call.',
@@ -301,6 +301,6 @@ PROPS['C19'] = {
     'assumptions': ['std::io::StdoutLock / StderrLock give mutual exclusion for the lifetime of the guard (std contract, assumed)',
                     'AtomicUsize load/store with SeqCst are linearizable (std contract, assumed)',
                     'the print macros expand to one write_fmt call on anstream::stdout()/stderr() (read off _macros.rs, not verified)',
-                    'write_fmt is exercised with a literal-only format string; with arguments the same Adapter calls write_all per fragment under the same guard (by reading)'],
+                    'write_fmt is verified with core::fmt::write replaced by an uninterpreted two-fragment formatter (see C06): one lock acquisition for all fragments; what std renders for given arguments is assumed'],
 }
 PROPS['C19']['thorough'] = PROPS['C19']['quick']
